@@ -2,7 +2,7 @@
    Statements only (copied from the lemma libraries); every proof is a bare
    `exact`; see the cited files in coq/proofs for the proofs. *)
 From Coq Require Import List NArith ZArith Bool Arith Sorting.Sorted Sorting.Permutation.
-From D2P Require Import Str Err Xml TableTypes Tables Fmt NumFmt Bullets Merge Collector Walk Iter Output ShapeFacts TokFacts FrameFacts BulletsFacts NumFmtFacts MergeFacts TotalFacts TablesFacts GridFacts TotalTables.
+From D2P Require Import Str Err Xml TableTypes Tables Fmt NumFmt Bullets Merge Collector Walk Iter Output ShapeFacts TokFacts FrameFacts BulletsFacts NumFmtFacts MergeFacts TotalFacts TablesFacts GridFacts TotalTables PyVal Source SourceBase SourceFmt SourceForms.
 Import ListNotations.
 
 (* for EVERY table-free, comment-range-free element tree: if the evaluation of each single element succeeds (required ids present, numbers parse, check-box and drop-down values known, formatting renders to non-blank tags), the whole walk succeeds - exceptions never emerge from the state machine, whatever the nesting *)
@@ -156,3 +156,32 @@ Theorem C13_empty_cell_repaired :
                              /\ c_tree s = [].
 Proof. exact cell_without_paragraph_repaired. Qed.
 Print Assumptions C13_empty_cell_repaired.
+
+(* SOURCE TIE: forms.get_checkBox_entry as translated from the source text (nested closure get_wval, suppress(StopIteration) / suppress(StopIteration, KeyError) with returns inside, the value table indexed by the result) is the model's: every on/off spelling of w:checked / w:default, a missing value, a missing w binding - the same string or the same KeyError for every element *)
+Theorem C13_source_get_checkBox_entry :
+  forall e ks, form_names_ok ks ->
+  S_get_checkBox_entry (enc_fel (AE e ks)) = lift_str (get_checkBox_entry e ks).
+Proof. exact src_get_checkBox_entry. Qed.
+Print Assumptions C13_source_get_checkBox_entry.
+
+(* SOURCE TIE: forms.get_ddList_entry as translated from the source text (comprehension over the list entries, try / except around next() and int(), Python indexing with IndexError -> empty string) is the model's for every element: empty drop-downs, a missing or out-of-range w:result degrade to the documented fallback *)
+Theorem C13_source_get_ddList_entry :
+  forall e ks, form_names_ok ks ->
+  S_get_ddList_entry (enc_fel (AE e ks)) = lift_str (get_ddList_entry e ks).
+Proof. exact src_get_ddList_entry. Qed.
+Print Assumptions C13_source_get_ddList_entry.
+
+(* SOURCE TIE: namespace.get_attrib_by_qn(elem, "w:NAME") is the model's attr_w_req (KeyError when the attribute or the w binding is missing) *)
+Theorem C13_source_get_attrib_by_qn :
+  forall e ks name, ~ In 58%N name -> braceless name -> attr_names_ok e ->
+  S_get_attrib_by_qn (enc_fel (AE e ks)) (VStr ([119; 58]%N ++ name)) = lift_str (attr_w_req e name).
+Proof. exact src_get_attrib_by_qn_w. Qed.
+Print Assumptions C13_source_get_attrib_by_qn.
+
+(* SOURCE TIE: namespace.iterfind_by_qn(elem, "w:NAME") yields the model's children_w *)
+Theorem C13_source_iterfind_by_qn :
+  forall e ks name, ~ In 58%N name -> braceless name -> kid_names_ok ks ->
+  S_iterfind_by_qn (enc_fel (AE e ks)) (VStr ([119; 58]%N ++ name))
+  = match children_w e ks name with Ok l => Ok (VList (map enc_fel l)) | Err x => Err x end.
+Proof. exact src_iterfind_by_qn_w. Qed.
+Print Assumptions C13_source_iterfind_by_qn.
